@@ -23,6 +23,10 @@ def xat (d : List (List XR)) (i k : Nat) : XR := (d.getD i []).getD k .nan
 def xUndef (sc rm : XR) (nb : Int) (d : List (List XR)) (n t : Nat) : Bool :=
   (List.range n).any fun i => (List.range t).any fun k => (symbolX sc rm nb (xat d i k)).isNone
 
+def showX : XR → String
+  | .nan => "nan" | .pinf => "inf" | .ninf => "-inf"
+  | .fin r => if r.den == 1 then toString r.num else s!"{r.num}/{r.den}"
+
 def accKey (a : Acc) : Nat × Int × Nat × Nat := (a.arr, a.off, a.w, if a.wr then 1 else 0)
 
 def keyLe (a b : Nat × Int × Nat × Nat) : Bool :=
@@ -115,6 +119,22 @@ def answer (toks : List String) : String :=
       (pearsonCall n.toNat! t.toNat! n2.toNat! t2.toNat!).str
   | ["call", "tmi", n, t, n2, t2, nb, dO, dS] =>
       (tmiCall n.toNat! t.toNat! n2.toNat! t2.toNat! nb.toInt! (odata dO) (odata dS)).str
+  | ["call", "tmix", n, t, n2, t2, nb, dO, dS] =>
+      -- the wrapper on IEEE data (`inf`, `-inf`, `nan` tokens); range terms and scaling expression
+      -- are the *generated* ones
+      (tmiCallX Pyunicorn.Generated.StructC20Py.tmi_range_min Pyunicorn.Generated.StructC20Py.tmi_range_max
+        Pyunicorn.Generated.StructC20Py.tmi_scaling
+        n.toNat! t.toNat! n2.toNat! t2.toNat! nb.toInt! (xdata dO) (xdata dS)).str
+  | ["range", "tmix", dO, dS] =>
+      -- (range_min, range_max, scaling) as the wrapper model computes them
+      match rangeFromX (xdata dO) (xdata dS) Pyunicorn.Generated.StructC20Py.tmi_range_min
+          Pyunicorn.Generated.StructC20Py.tmi_range_max with
+      | none => "unreadable"
+      | some (mn, mx) =>
+          showX mn ++ " " ++ showX mx ++ " " ++
+            (match XR.recip (XR.sub mx mn) with
+             | none => "zerodiv"
+             | some s => showX s)
   | ["call", "mi", n, t, nb, zdiv, sc, rm, d] =>
       (miCall n.toNat! t.toNat! nb.toInt! (zdiv == "1") (orat sc) (orat rm) (odata d)).str
   | ["call", "miobj", objn, n, t, nb, zdiv, sc, rm, d] =>
